@@ -53,7 +53,10 @@ fn expect_err(ctx: &mut Ctx, f: &Facts, what: &str, do_binary: bool, do_jax: boo
 
 pub fn run(ctx: &mut Ctx) {
     ctx.rule = "case = (labelled DAG over HP:1, HP:118 and k further terms, id pool placing the further ids below/between/above 118); also with a root id replaced by an unrelated id; distinct by construction; non-trivial = at least two is_a links".into();
-    ctx.assumptions = vec!["acyclic graphs; the roots are identified by their ids 1 and 118, whatever their position in the graph".into()];
+    ctx.assumptions = vec![
+        "acyclic graphs; the roots are identified by their ids 1 and 118, whatever their position in the graph".into(),
+        "setter sequences: 'built with defaults' = both public setters were called, in either order, also after the lists were cleared; after a single setter its own list must already be the documented default (set_default_categories documents its result without reference to the modifier list; set_default_modifier only needs HP:0000001)".into(),
+    ];
     let max_n = if ctx.tier.thorough() { 6 } else { 5 };
     for n in 2..=max_n {
         let dags = all_dags(n);
